@@ -135,6 +135,9 @@ type Engine struct {
 	crashLabel   string
 	crashPoints  int
 	hookCheck    bool
+	netUp        bool
+	netConns     []*netConn
+	netByPtr     map[*value]*netConn
 }
 
 var E *Engine
@@ -182,6 +185,9 @@ func (e *Engine) resetPath() {
 	e.crashLabel = ""
 	e.crashPoints = 0
 	e.hookCheck = false
+	e.netUp = false
+	e.netConns = nil
+	e.netByPtr = nil
 }
 
 // endPath terminates the current path with the given outcome.
